@@ -6,6 +6,7 @@ import (
 	"fmt"
 	"io"
 	"net"
+	"sync"
 
 	"github.com/btcsuite/btclog/v2"
 	"github.com/lightninglabs/lightning-node-connect/hashmailrpc"
@@ -29,8 +30,9 @@ type Server struct {
 
 	ctx context.Context //nolint:containedctx
 
-	quit   chan struct{}
-	cancel func()
+	quit      chan struct{}
+	closeOnce sync.Once
+	cancel    func()
 
 	log btclog.Logger
 }
@@ -150,16 +152,21 @@ func (e *temporaryError) Temporary() bool {
 }
 
 func (s *Server) Close() error {
-	s.log.Debugf("Conn being closed")
+	// Close may be called more than once (by the owner of the listener and
+	// by the gRPC server that it was handed to).
+	s.closeOnce.Do(func() {
+		s.log.Debugf("Conn being closed")
 
-	close(s.quit)
+		close(s.quit)
 
-	if s.mailboxConn != nil {
-		if err := s.mailboxConn.Stop(); err != nil {
-			s.log.Errorf("Error closing mailboxConn %v", err)
+		if s.mailboxConn != nil {
+			if err := s.mailboxConn.Stop(); err != nil {
+				s.log.Errorf("Error closing mailboxConn %v", err)
+			}
 		}
-	}
-	s.cancel()
+		s.cancel()
+	})
+
 	return nil
 }
 
